@@ -184,10 +184,10 @@ pub fn compare_matching(rep: &TaxReport, r: &RResult, with_money: bool) -> Vec<D
                 continue;
             }
             if with_money {
+                // (the statement fixes each leg's allowable cost and each DISPOSAL's proceeds and gain; how a
+                // disposal's proceeds are shared between its legs is not part of it — see C06-F2)
                 if !a.cost.close(&b.cost) {
                     out.push(d("leg-cost", format!("disposal {} {}: leg {:?}/{:?} allowable cost {} expected {}", rd.date, rd.ticker, k.0, k.1, a.cost, b.cost)));
-                } else if !a.gain.close(&b.gain) {
-                    out.push(d("leg-gain", format!("disposal {} {}: leg {:?}/{:?} gain {} expected {}", rd.date, rd.ticker, k.0, k.1, a.gain, b.gain)));
                 }
             }
         }
